@@ -334,6 +334,9 @@ func execDial(toks []string) string {
 	if la, ok := kvGet(toks, "la"); ok && la != "" {
 		mc.local = memAddr{"tcp", la + ":3868"}
 	}
+	if la6, ok := kvGet(toks, "la6"); ok && la6 != "" { // an IPv6 local endpoint: [2001:db8::k]:3868
+		mc.local = memAddr{"tcp", "[2001:db8::" + la6 + "]:3868"}
+	}
 	ps := &peerScript{beh: splitDots(behS), wf: wf}
 	if startConc != nil {
 		sc := startConc
@@ -642,6 +645,9 @@ func genSMClient(r *RNG, n int, op string, emit func(string)) {
 			}
 			if r.Chance(25) {
 				line += " conc=1"
+			}
+			if !strings.Contains(line, " la=") && r.Chance(15) {
+				line += fmt.Sprintf(" la6=%d", 1+r.Intn(9))
 			}
 			emit(line)
 		}
